@@ -2,18 +2,19 @@
 import plugincheck
 
 THEOREMS = ["cloud_wellformed", "freed_before_reuse", "cloud_invariant_preserved"]
-REFUTED = ["cloud_wellformed_refuted_rebind", "cloud_wellformed_refuted_multi_ip_resync"]
+REFUTED = ["cloud_wellformed_refuted_rebind", "cloud_wellformed_refuted_multi_ip_resync_old", "cloud_wellformed_refuted_nodeless_resync_old"]
 KNOWN_FINDINGS = [
     {"id": "K3", "status": "open", "tag": plugincheck.K3_TAG,
      "what": "Bind calls AssignIP(ip, node) although the provider still has the ip assigned to another node: after a failed "
              "pods/binding call (or a bind request for an already bound pod) the scheduler binds the pod on another node and "
              "galaxy-ipam assigns without unassigning first (assign x@node3, assign x@node5); witness "
              "cloud_wellformed_refuted_rebind, scenario K3-rebind-other-node"},
-    {"id": "K3b", "status": "open", "tag": plugincheck.K3B_TAG,
-     "what": "with a cloud provider, a resync item (and an API release) of a pod holding SEVERAL ips unassigns only the item's "
-             "ip but clears the node of / releases every ip of the key: the other ips are freed while the provider still has them "
-             "assigned to the old node, and a later pod gets them assigned elsewhere; witness "
-             "cloud_wellformed_refuted_multi_ip_resync, scenarios incarnation:*:multi:cloud"},
+    {"id": "K3b", "status": "fixed", "commit": "5359786", "tag": "c10-multi-ip-key-resync-or-release",
+     "what": "fixed: property=C10 5359786 with a cloud provider, a resync item (and an API release) of a pod holding SEVERAL ips "
+             "unassigned only the item's ip but cleared the node of / released every ip of the key: the other ips were freed while the "
+             "provider still had them assigned to the old node (also when the item's own ip had no node stored while another ip of the "
+             "key had); witnesses cloud_wellformed_refuted_multi_ip_resync_old, cloud_wellformed_refuted_nodeless_resync_old, "
+             "scenarios incarnation:*:multi:cloud"},
 ]
 
 MANIFEST = {
@@ -23,9 +24,12 @@ MANIFEST = {
             "provider's log replays without ever assigning an IP that is On another node (log_wf), every IP of a bound live pod "
             "is On that pod's node (cloud_live), an IP is On a node only while allocated with that node stored (cloud_alloc); "
             "freed_before_reuse - every step that frees an IP or hands it to another owner leaves it Unassigned; "
-            "cloud_invariant_preserved (the induction step). The two state conditions of the history predicate wf_c10 (k3_free, "
-            "k3b_free) are exactly the two recorded defects K3 / K3b, each with a proved refuting history "
-            "(cloud_wellformed_refuted_rebind, cloud_wellformed_refuted_multi_ip_resync) reproduced on the real code. Tied to the "
+            "cloud_invariant_preserved (the induction step). The one state condition of the history predicate wf_c10 (k3_free: Bind on a "
+            "node happens only while no IP of the pod's key is On another node) is exactly the recorded defect K3, with a proved "
+            "refuting history (cloud_wellformed_refuted_rebind) reproduced on the real code; resync items and API releases carry no "
+            "condition any more since the repair of K3b (5359786: every IP of the key is unassigned before the key is reserved or "
+            "released; an API release clears one IP) - the old behaviour keeps its refutation witnesses "
+            "(cloud_wellformed_refuted_multi_ip_resync_old, .._nodeless_resync_old on Proofs/PluginC10P.v resync_section_old). Tied to the "
             "code by replaying scenario + random histories on the real FloatingIPPlugin with a recording provider vs the model "
             "step by step, and by evaluating log_ok / mon_cloud_live / mon_freed_unassigned on the implementation's own provider "
             "log and dumps after every step.",
